@@ -1303,6 +1303,11 @@ func (in *Interp) callClosure(clo *Closure, args []Value) (result Value) {
 			defer func() {
 				if r := recover(); r != nil {
 					if e, ok := r.(*RErr); ok {
+						if rerr != nil && rerr.Cat == "panic" && e.Cat != "panic" {
+							// a deferred call failing while a Go panic (integer division by zero) unwinds:
+							// which of the two the caller sees is not pinned by the statement
+							in.tag("undecided")
+						}
 						rerr = e
 						result = nil
 						return
